@@ -433,6 +433,54 @@ pub fn literals() -> Vec<Lit> {
             out.push(Lit { label: format!("string/double/{}{}", label, if prefix { "/typed" } else { "" }), type_text: "WSTRING", pieces: p, expect: Expect::Value(n("Str", vec![("v", s(body))])), address: false });
         }
     }
+    // ---- strings: the dollar escapes of IEC 61131-3 table 5/6 ($$ $' $" $L $N $P $R $T and hexadecimal character codes)
+    let single_esc: Vec<(&str, &str, Option<&str>)> = vec![
+        ("dollar", "a$$b", Some("a$b")),
+        ("quote", "it$'s", Some("it's")),
+        ("line-feed", "a$Lb", Some("a\nb")),
+        ("newline", "a$Nb", Some("a\nb")),
+        ("form-feed", "a$Pb", Some("a\u{c}b")),
+        ("carriage-return", "a$Rb", Some("a\rb")),
+        ("tab", "a$Tb", Some("a\tb")),
+        ("lower-case-newline", "a$nb", Some("a\nb")),
+        ("hex-code", "$41$42", Some("AB")),
+        ("hex-code-lower", "$6a", Some("j")),
+        ("at-end", "ab$$", Some("ab$")),
+        ("quote-at-end", "ab$'", Some("ab'")),
+        ("unknown-escape", "a$Zb", None),
+        ("incomplete-hex-code", "a$4", None),
+    ];
+    for (label, body, value) in single_esc {
+        out.push(Lit {
+            label: "string/dollar-escape".to_string(),
+            type_text: "STRING",
+            pieces: vec![format!("'{}'", body)],
+            expect: match value {
+                Some(v) => Expect::Value(n("Str", vec![("v", s(v))])),
+                None => Expect::Reject(Box::leak(format!("{} is not an escape of table 5", label).into_boxed_str())),
+            },
+            address: false,
+        });
+    }
+    let double_esc: Vec<(&str, &str, Option<&str>)> = vec![
+        ("dollar", "a$$b", Some("a$b")),
+        ("double-quote", "say $\"hi$\"", Some("say \"hi\"")),
+        ("newline", "a$Nb", Some("a\nb")),
+        ("hex-code", "$0041$00E9", Some("A\u{e9}")),
+        ("short-hex-code", "a$41", None),
+    ];
+    for (label, body, value) in double_esc {
+        out.push(Lit {
+            label: "string/dollar-escape".to_string(),
+            type_text: "WSTRING",
+            pieces: vec![format!("\"{}\"", body)],
+            expect: match value {
+                Some(v) => Expect::Value(n("Str", vec![("v", s(v))])),
+                None => Expect::Reject(Box::leak(format!("{} is not an escape of table 6", label).into_boxed_str())),
+            },
+            address: false,
+        });
+    }
     // ---- direct addresses
     for loc in ["I", "Q", "M"] {
         for (size, sname) in [("", "Nil"), ("X", "X"), ("B", "B"), ("W", "W"), ("D", "D"), ("L", "L")] {
@@ -554,7 +602,7 @@ pub fn judge(l: &Lit) -> Option<(String, String)> {
 
 pub fn run(ctx: &mut Ctx) {
     let lits = literals();
-    ctx.rule = "the structured literal space: integers in base 2/8/10/16 x 20 magnitude classes x sign x type prefix x one underscore at every interior position; typed bit strings; booleans; reals (plain, exponent forms, underscores, extremes, overflow) x sign x prefix; durations for every non-empty ordered subset of {d,h,m,s,ms} x value menus (ones, typical, zero, max-1, max, max+1, fractions on the last unit) x T#/TIME# x sign x underscore separators, large magnitudes; TOD / DATE / DT with every field at min, max, max+1, fractional seconds, leap days; single- and double-byte strings (ASCII, other quote, 2/3/4-byte characters, typed); direct addresses {I,Q,M} x {none,X,B,W,D,L} x 1-3 components x 1-3 digits and beyond u32, incomplete addresses; distinct = distinct literal text".into();
+    ctx.rule = "the structured literal space: integers in base 2/8/10/16 x 20 magnitude classes x sign x type prefix x one underscore at every interior position; typed bit strings; booleans; reals (plain, exponent forms, underscores, extremes, overflow) x sign x prefix; durations for every non-empty ordered subset of {d,h,m,s,ms} x value menus (ones, typical, zero, max-1, max, max+1, fractions on the last unit) x T#/TIME# x sign x underscore separators, large magnitudes; TOD / DATE / DT with every field at min, max, max+1, fractional seconds, leap days; single- and double-byte strings (ASCII, other quote, 2/3/4-byte characters, typed, every dollar escape of tables 5 and 6); direct addresses {I,Q,M} x {none,X,B,W,D,L} x 1-3 components x 1-3 digits and beyond u32, incomplete addresses; distinct = distinct literal text".into();
     ctx.assumptions.push("expected values come from an exact evaluator in u128 / i128 nanoseconds / field validity tables; reals: nearest f64 of the underscore-free text (Rust str::parse), infinite = unrepresentable".into());
     ctx.assumptions.push("a duration is the exact sum of its parts whatever the magnitude of a part; it is unrepresentable only beyond i64 seconds".into());
     let res: Vec<Option<(String, String)>> = lits.par_iter().map(judge).collect();
